@@ -166,15 +166,19 @@ def _lib_functional(rng):
     consumers in random order (the recurrence builder keeps per-monomial context for such variables)"""
     d = rng.choice(["Normal(0, 1)", "Uniform(0, 1)", "Normal(1, 1/4)", "Uniform(-1, 1)"])
     fn = rng.choice(["Cos", "Sin", "Exp"])
-    lines = ["x = 0", f"s = {rng.choice([0, 1])}", "y = 0", "while true:", f"    u = {d}"]
+    init = ["x = 0", f"s = {rng.choice([0, 1, 2])}", "y = 0"]
+    if rng.random() < 0.7:
+        init.append(f"u = {d}")         # the argument also has an initial draw, before or after the function variable's initial value
+    rng.shuffle(init)
+    lines = init + ["while true:", f"    u = {d}"]
     body = [f"    x = x + s", f"    s = {fn}(u)"]
     if rng.random() < 0.5:
         body.append("    y = y + s")
     if rng.random() < 0.3:
         body.reverse()
     text = "\n".join(lines + body + ["end"]) + "\n"
-    pool = ["s", "x", "y", "s**2", "x*s", "u", "u*s"]
-    goals = [{"monom": g, "kind": "raw"} for g in rng.sample(pool, rng.choice([2, 3, 3]))]
+    pool = ["s", "x", "x", "y", "s**2", "x*s", "u", "u*s"]
+    goals = [{"monom": g, "kind": "raw"} for g in dict.fromkeys(rng.sample(pool, rng.choice([2, 3, 3])))]
     return {"kind": "lib", "pid": "fun:" + hashlib.sha256(text.encode()).hexdigest()[:10], "program": {"text": text}, "goals": goals,
             "options": dict(rng.choice([{}, {}, {"exact_func_moments": True}])), "api": rng.choice(["raw", "common", "common"]), "force_cyclic": False}
 
@@ -302,8 +306,10 @@ def gen_case(seed, extra=None):
     pid_pool = []
     while len(sessions) < nsess:
         r = rng.random()
-        if r < 0.42:
+        if r < 0.39:
             s = _lib_from_corpus(rng, pid_pool)
+        elif r < 0.42:
+            s = _lib_functional(rng)
         elif r < 0.68:
             s = _lib_generated(rng)
         elif r < 0.71:
@@ -318,7 +324,18 @@ def gen_case(seed, extra=None):
         elif r < 0.84:
             s = _sensitivity_action(rng)
         elif r < 0.88:
+            # two queries against networks of the same small pool: query objects must not share state
+            sessions.append(_bn_action(rng))
             s = _bn_action(rng)
+            if rng.random() < 0.6:
+                s2 = _bn_action(rng)
+                s2["files"], s2["pid"] = sessions[-1]["files"], sessions[-1]["pid"]
+                vs = _bn_variables(s2["files"][0]["path"])
+                if len(vs) >= 2:
+                    t = rng.choice(vs)
+                    e = rng.choice([v for v in vs if v[0] != t[0]])
+                    s2["namespace"] = {"exact_inference": f"{t[0]}**1 | {e[0]} = {rng.choice(e[1])}"}
+                    s = s2
         else:
             s = _multi_file(rng, "action")
         if s["kind"] == "lib" and s["program"].get("path") in corpus()["ok"]:
